@@ -65,7 +65,8 @@ def tzs():
     out = [None, dt.timezone.utc, dt.timezone(TD(hours=2)), dt.timezone(TD(hours=-5, minutes=-30), 'X'), dt.timezone(TD(hours=23, minutes=59, seconds=59)),
            dt.timezone(-TD(hours=23, minutes=59, seconds=59), ''), dt.timezone(TD(seconds=1), "it's \"q\""), dt.timezone(TD(microseconds=1)),
            dt.timezone(TD(0), 'Zero'), pytz.utc, pytz.timezone('Europe/Helsinki'), pytz.timezone('America/New_York'), pytz.timezone('Asia/Kolkata'),
-           pytz.FixedOffset(90), pytz.FixedOffset(-300)]
+           pytz.FixedOffset(90), pytz.FixedOffset(-300), pytz.timezone('GMT'), pytz.timezone('Etc/UTC'), pytz.timezone('Zulu'), pytz.timezone('Etc/GMT+5'),
+           pytz.timezone('Etc/GMT-14'), pytz.timezone('UTC'), pytz.timezone('Africa/Abidjan'), pytz.timezone('Asia/Kathmandu'), pytz.FixedOffset(0)]
     hel = pytz.timezone('Europe/Helsinki')
     out.append(hel.localize(dt.datetime(2020, 7, 1)).tzinfo)
     out.append(hel.localize(dt.datetime(2020, 1, 1)).tzinfo)
